@@ -59,10 +59,38 @@ enum NsOp {
 }
 
 struct Handle {
+    /// 0 = a directory handle (only `sync_all` means something on it)
     inode: u64,
     pos: usize,
     mode: OpenMode,
     path: PathBuf,
+}
+
+const DIR_INODE: u64 = 0;
+
+impl NsOp {
+    fn in_dir(&self, dir: &Path) -> bool {
+        match self {
+            NsOp::Create(p, _) | NsOp::Unlink(p) => p.parent() == Some(dir),
+            NsOp::Rename(a, b) => a.parent() == Some(dir) || b.parent() == Some(dir),
+        }
+    }
+}
+
+fn commit_ns(durable: &mut BTreeMap<PathBuf, u64>, op: NsOp) {
+    match op {
+        NsOp::Create(p, i) => {
+            durable.insert(p, i);
+        }
+        NsOp::Rename(a, b) => {
+            if let Some(i) = durable.remove(&a) {
+                durable.insert(b, i);
+            }
+        }
+        NsOp::Unlink(p) => {
+            durable.remove(&p);
+        }
+    }
 }
 
 #[derive(Default)]
@@ -129,6 +157,27 @@ impl SimFs {
     pub fn crashed(&self) -> bool {
         self.lock().crashed
     }
+    /// Kill the simulated process *between* two file-system calls: the disk goes dead (so the
+    /// `Drop` flushes of the process's objects reach nothing); follow with `reboot`.
+    pub fn kill(&self) {
+        let mut s = self.lock();
+        s.dead = true;
+        s.crashed = true;
+        *s.faults_fired.entry("crash.between_calls".into()).or_insert(0) += 1;
+    }
+    /// Whether `p` is a directory of the simulated disk (no op is counted).
+    pub fn is_dir(&self, p: &Path) -> bool {
+        self.lock().dirs.contains(p)
+    }
+    /// Number of reachable files whose content differs from their last fsynced image.
+    pub fn unsynced_files(&self) -> usize {
+        let s = self.lock();
+        s.live.values().chain(s.durable_ns.values()).collect::<BTreeSet<_>>().into_iter().filter(|i| s.inodes.get(i).map(|x| x.data != x.synced || x.truncated).unwrap_or(false)).count()
+    }
+    /// Namespace operations not yet durable (what a power loss may drop), oldest first.
+    pub fn pending_ns(&self) -> Vec<String> {
+        self.lock().pending.iter().map(|o| format!("{:?}", o)).collect()
+    }
     pub fn faults_fired(&self) -> BTreeMap<String, u64> {
         self.lock().faults_fired.clone()
     }
@@ -186,6 +235,8 @@ impl SimFs {
             ci += 1;
             if n == 0 {
                 0
+            } else if v == u64::MAX {
+                n - 1 // "as much as possible survives"
             } else {
                 v % n
             }
@@ -392,6 +443,13 @@ impl Backend for SimFs {
                 }
                 i
             }
+            None if s.dirs.contains(p) && !mode.write && !mode.append && !mode.create => {
+                // a directory opened read-only (Unix): the handle exists to be fsynced
+                let h = s.next_id;
+                s.next_id += 1;
+                s.handles.insert(h, Handle { inode: DIR_INODE, pos: 0, mode, path: p.to_path_buf() });
+                return Ok(h);
+            }
             None => {
                 if !mode.create {
                     return Err(io::Error::new(io::ErrorKind::NotFound, "no such file"));
@@ -423,6 +481,9 @@ impl Backend for SimFs {
             Some(x) => (x.inode, x.pos),
             None => return Err(io::Error::new(io::ErrorKind::Other, "bad handle")),
         };
+        if inode == DIR_INODE {
+            return Err(io::Error::new(io::ErrorKind::Other, "is a directory"));
+        }
         let data = &s.inodes[&inode].data;
         let n = buf.len().min(data.len().saturating_sub(pos));
         buf[..n].copy_from_slice(&data[pos..pos + n]);
@@ -441,6 +502,9 @@ impl Backend for SimFs {
             Some(x) => (x.inode, x.pos, x.mode.append),
             None => return Err(io::Error::new(io::ErrorKind::Other, "bad handle")),
         };
+        if inode == DIR_INODE {
+            return Err(io::Error::new(io::ErrorKind::Other, "is a directory"));
+        }
         let take = decision.unwrap_or(buf.len());
         {
             let ino = s.inodes.get_mut(&inode).unwrap();
@@ -480,6 +544,19 @@ impl Backend for SimFs {
             Some(x) => x.inode,
             None => return Err(io::Error::new(io::ErrorKind::Other, "bad handle")),
         };
+        if inode == DIR_INODE {
+            // fsync(directory): the namespace operations of that directory become durable
+            let pend = std::mem::take(&mut s.pending);
+            let st: &mut State = &mut s;
+            for op in pend {
+                if st.fsync_commits_ns || op.in_dir(&path) {
+                    commit_ns(&mut st.durable_ns, op);
+                } else {
+                    st.pending.push(op);
+                }
+            }
+            return Ok(());
+        }
         let ino = s.inodes.get_mut(&inode).unwrap();
         ino.synced = ino.data.clone();
         ino.truncated = false;
@@ -487,19 +564,7 @@ impl Backend for SimFs {
         if s.fsync_commits_ns {
             let pend = std::mem::take(&mut s.pending);
             for op in pend {
-                match op {
-                    NsOp::Create(p, i) => {
-                        s.durable_ns.insert(p, i);
-                    }
-                    NsOp::Rename(a, b) => {
-                        if let Some(i) = s.durable_ns.remove(&a) {
-                            s.durable_ns.insert(b, i);
-                        }
-                    }
-                    NsOp::Unlink(p) => {
-                        s.durable_ns.remove(&p);
-                    }
-                }
+                commit_ns(&mut s.durable_ns, op);
             }
         }
         Ok(())
